@@ -443,6 +443,126 @@ fn plain_enumeration(c: &Combo, st: &mut Stats) -> Result<u64, String> {
 }
 
 // ------------------------------------------------------------------------------------------
+// many channels at once: n channels each start a two-packet message (optionally channel 0 starts
+// twice), then each sends its second packet; every message is delivered on its last packet.
+
+#[derive(Clone, Debug, Serialize, Deserialize, PartialEq, Eq, Hash)]
+pub struct Many {
+    pub channels: usize,
+    /// the first channel sends its initialisation packet twice (a restarted transaction)
+    pub restart_first: bool,
+    /// second packets arrive in reverse channel order
+    pub reverse: bool,
+}
+pub fn many_cases(tier: Tier) -> Vec<Many> {
+    let mut v = vec![];
+    for channels in [1usize, 2, 3, 16, 63, 64, 65, 66, 100, 127, 128, 129, 255, 256, 257, 300].into_iter().chain(tier.pick(vec![], vec![1000, 4096])) {
+        for restart_first in [false, true] {
+            for reverse in [false, true] {
+                v.push(Many { channels, restart_first, reverse });
+            }
+        }
+    }
+    v
+}
+pub fn eval_many(c: &Many) -> Vec<Finding> {
+    let case = json!({"many_channels": c});
+    let mut fs = vec![];
+    let r = par::catch(|| -> Result<Option<String>, String> {
+        let mut h = ChannelHandler::default();
+        let mut firsts = vec![];
+        let mut seconds = vec![];
+        let payload = |ch: u32| -> Vec<u8> { (0..80u32).map(|i| (i ^ ch) as u8).collect() };
+        for k in 0..c.channels {
+            let ch = 0x1000 + k as u32;
+            let wire = send(ch, Command::Cbor, &payload(ch))?.ok_or("harness: sender refused a short message")?;
+            let ps: Vec<Vec<u8>> = wire.chunks(64).map(|p| p.to_vec()).collect();
+            firsts.push(ps[0].clone());
+            seconds.push((ch, ps[1].clone()));
+        }
+        for (k, p) in firsts.iter().enumerate() {
+            if h.handle_packet(p).is_some() {
+                return Ok(Some(format!("channel #{k} delivered on its first packet")));
+            }
+            if k == 0 && c.restart_first && h.handle_packet(p).is_some() {
+                return Ok(Some("channel #0 delivered on its repeated first packet".into()));
+            }
+        }
+        if c.reverse {
+            seconds.reverse();
+        }
+        for (ch, p) in &seconds {
+            match h.handle_packet(p) {
+                Some(m) if m.channel == *ch && m.payload == payload(*ch) => {}
+                Some(_) => return Ok(Some(format!("channel {ch:#x}: another message was delivered on its last packet"))),
+                None => return Ok(Some(format!("channel {ch:#x}: no message on its last packet while {} channels were transmitting", c.channels))),
+            }
+        }
+        Ok(None)
+    });
+    match r {
+        Err(p) => fs.push(Finding::new(format!("many-channels/kind=panic/site={}", par::panic_site(&p)), format!("{} channels transmitting at once: {p}", c.channels), case)),
+        Ok(Err(e)) => fs.push(Finding::new("many-channels/kind=harness", e, case)),
+        Ok(Ok(Some(d))) => fs.push(Finding::new("many-channels/kind=message-lost", d, case)),
+        Ok(Ok(None)) => {}
+    }
+    fs
+}
+
+// ------------------------------------------------------------------------------------------
+// a writer that fails: whatever `send` returns, it never reports success for a message whose
+// packets were not all handed to the writer, in order.
+
+struct FailingWriter {
+    calls: usize,
+    fail_at: usize,
+    kind: std::io::ErrorKind,
+    /// fail only once (the next write succeeds)
+    once: bool,
+    written: Vec<u8>,
+}
+impl std::io::Write for FailingWriter {
+    fn write(&mut self, buf: &[u8]) -> std::io::Result<usize> {
+        let k = self.calls;
+        self.calls += 1;
+        if k == self.fail_at || (!self.once && k > self.fail_at) {
+            return Err(std::io::Error::new(self.kind, "harness: injected write failure"));
+        }
+        self.written.extend_from_slice(buf);
+        Ok(buf.len())
+    }
+    fn flush(&mut self) -> std::io::Result<()> {
+        Ok(())
+    }
+}
+pub fn eval_failing_writer(len: usize, fail_at: usize, kind: u8, once: bool) -> Vec<Finding> {
+    use std::io::ErrorKind as K;
+    let kinds = [K::Interrupted, K::WouldBlock, K::BrokenPipe, K::Other, K::TimedOut];
+    let case = json!({"failing_writer": {"len": len, "fail_at": fail_at, "kind": kind, "once": once}});
+    let mut fs = vec![];
+    let payload: Vec<u8> = (0..len).map(|i| (i % 249) as u8).collect();
+    let Ok(Some(wire)) = send(1, Command::Cbor, &payload) else { return fs };
+    let r = par::catch(|| {
+        let m = Message::new(1, Command::Cbor, &payload).map_err(|_| ())?;
+        let mut w = FailingWriter { calls: 0, fail_at, kind: kinds[kind as usize % kinds.len()], once, written: vec![] };
+        let res = m.send(&mut w);
+        Ok::<_, ()>((res.is_ok(), w.written))
+    });
+    match r {
+        Err(p) => fs.push(Finding::new(format!("failing-writer/kind=panic/site={}", par::panic_site(&p)), p, case)),
+        Ok(Err(())) => {}
+        Ok(Ok((ok, written))) => {
+            if ok && written != wire {
+                fs.push(Finding::new("failing-writer/kind=success-reported-for-incomplete-message", format!("write call #{fail_at} failed with {:?}{}; send returned Ok although the writer received {} of {} bytes{}", kinds[kind as usize % kinds.len()], if once { " once" } else { " from then on" }, written.len(), wire.len(), if wire.starts_with(&written) { "" } else { " (not even a prefix: a packet is missing in the middle)" }), case));
+            } else if !ok && !wire.starts_with(&written) {
+                fs.push(Finding::new("failing-writer/kind=packets-out-of-order-after-failure", format!("after a failed write the writer holds {} bytes that are not a prefix of the message's packets", written.len()), case));
+            }
+        }
+    }
+    fs
+}
+
+// ------------------------------------------------------------------------------------------
 // starvation: one channel is held back between two of its packets while other channels send
 // `gap` packets (whole messages); its message must still be delivered on its last packet.
 // Deterministic family: victim length x position of the gap x gap size x traffic shape.
@@ -583,6 +703,31 @@ pub fn run(ctx: &Ctx) -> Result<Run, String> {
         Err(e) => st.finding(Finding::new("interleave/kind=harness-plan-failed", e, json!({"interleave": {"combo": c, "order": []}}))),
     });
     stats.merge(plain_stats);
+    // many channels at once; failing writers
+    let mc = many_cases(ctx.tier);
+    let mc_stats = par::sweep_cases(&mc, ctx.threads, |c, st| {
+        st.case(c, true, "many-channels");
+        st.findings_from(eval_many(c));
+    });
+    stats.merge(mc_stats);
+    let mut fw: Vec<(usize, usize, u8, bool)> = vec![];
+    for len in [0usize, 57, 58, 116, 117, 300, 7608] {
+        let packets = if len <= 57 { 1 } else { 1 + (len - 57).div_ceil(59) };
+        for fail_at in (0..packets.min(8)).chain(packets.saturating_sub(2)..packets) {
+            for kind in 0..5u8 {
+                for once in [true, false] {
+                    fw.push((len, fail_at, kind, once));
+                }
+            }
+        }
+    }
+    fw.sort();
+    fw.dedup();
+    let fw_stats = par::sweep_cases(&fw, ctx.threads, |c, st| {
+        st.case(c, true, "failing-writer");
+        st.findings_from(eval_failing_writer(c.0, c.1, c.2, c.3));
+    });
+    stats.merge(fw_stats);
     // starvation family
     let sv = starvations(ctx.tier);
     let sv_stats = par::sweep_cases(&sv, ctx.threads, |c, st| {
@@ -594,7 +739,7 @@ pub fn run(ctx: &Ctx) -> Result<Run, String> {
     stats.samples.push(json!({"starve": sv[sv.len() / 2]}));
     let mut run = Run::from_stats(
         "model_checking",
-        "single channel: every payload length 0..7700 and 65535/65536/70000 (all 9 commands x 4 channel ids at the boundary lengths, rotating command/channel and 3 content patterns elsewhere): written into a Vec and into a writer that only implements write/flush (same bytes); written bytes parsed by the harness (64-byte packets, header layout, sequence numbers, zero padding, packet count) and fed to a fresh receiver, and the message the receiver delivers is sent again (must be written as the same packets); interleavings: stateright BFS whose state is the real ChannelHandler (cloned via the verif hook) plus the next-packet index per stream, over all combinations of 2, 3 and 4 concurrently transmitting channels with payload lengths from {0,57,58,116,117,175,234} (1..4 packets; thorough adds streams of 5 and 6 packets for 2 and 3 channels), channels sending two messages back to back, and one stray continuation packet for an idle channel at any point; deduplicated on (indices, hook snapshot); run twice with different thread counts; cross-checked by a hook-free enumeration of all complete interleavings for 2 and 3 channels; starvation: a 3-packet message held back after its first / second packet while other channels send every number of packets 0..300 (thorough 0..1100) and 1024, 2048, 4096, 10000 as whole messages in three traffic shapes (maximal messages, two channels alternating single packets, 2-packet messages), each of which must be delivered too",
+        "single channel: every payload length 0..7700 and 65535/65536/70000 (all 9 commands x 4 channel ids at the boundary lengths, rotating command/channel and 3 content patterns elsewhere): written into a Vec and into a writer that only implements write/flush (same bytes); written bytes parsed by the harness (64-byte packets, header layout, sequence numbers, zero padding, packet count) and fed to a fresh receiver, and the message the receiver delivers is sent again (must be written as the same packets); interleavings: stateright BFS whose state is the real ChannelHandler (cloned via the verif hook) plus the next-packet index per stream, over all combinations of 2, 3 and 4 concurrently transmitting channels with payload lengths from {0,57,58,116,117,175,234} (1..4 packets; thorough adds streams of 5 and 6 packets for 2 and 3 channels), channels sending two messages back to back, and one stray continuation packet for an idle channel at any point; deduplicated on (indices, hook snapshot); run twice with different thread counts; cross-checked by a hook-free enumeration of all complete interleavings for 2 and 3 channels; many channels: 1..300 (thorough 4096) channels each start a two-packet message (the first optionally twice) and then complete, in channel order and in reverse – every message is delivered; failing writers: a write call fails at any of the first eight / last two packets with five error kinds, once or from then on – success is never reported for a message the writer did not receive in full and in order; starvation: a 3-packet message held back after its first / second packet while other channels send every number of packets 0..300 (thorough 0..1100) and 1024, 2048, 4096, 10000 as whole messages in three traffic shapes (maximal messages, two channels alternating single packets, 2-packet messages), each of which must be delivered too",
         true,
         stats,
     );
@@ -606,6 +751,13 @@ pub fn run(ctx: &Ctx) -> Result<Run, String> {
 }
 
 pub fn replay(_ctx: &Ctx, case: &Value) -> Result<Vec<Finding>, String> {
+    if let Some(m) = case.get("many_channels") {
+        let c: Many = serde_json::from_value(m.clone()).map_err(|e| format!("bad C16 case: {e}"))?;
+        return Ok(eval_many(&c));
+    }
+    if let Some(f) = case.get("failing_writer") {
+        return Ok(eval_failing_writer(f["len"].as_u64().unwrap_or(0) as usize, f["fail_at"].as_u64().unwrap_or(0) as usize, f["kind"].as_u64().unwrap_or(0) as u8, f["once"].as_bool().unwrap_or(true)));
+    }
     if let Some(sv) = case.get("starve") {
         let c: Starve = serde_json::from_value(sv.clone()).map_err(|e| format!("bad C16 starvation case: {e}"))?;
         return Ok(eval_starve(&c));
